@@ -444,6 +444,37 @@ PROPS["C17"] = dict(
     note="Flag and down-file slice of C17; bounded. Trusted: template evaluator, engine, z3, the keyword-level inverse table in the harness.",
 )
 
+_c20 = [
+    dict(MIGRATE, harness="VerifHarness_C20_dir", reach=["compared"]),
+    dict(_my, harness="VerifHarness_C20_mysql", reach=["compared"]),
+    dict(_my, harness="VerifHarness_C20_mysql_scope", reach=["compared"]),
+    dict(_pg, harness="VerifHarness_C20_postgres", reach=["compared"]),
+    dict(_pg, harness="VerifHarness_C20_postgres_scope", reach=["compared"]),
+    dict(_lt, harness="VerifHarness_C20_sqlite", reach=["compared"]),
+]
+PROPS["C20"] = dict(
+    MIGRATE,
+    replay_retries=20,
+    runs={"quick": _c20, "thorough": _c20},
+    bounds={
+        "quick": "schedule = iteration order of every `range` over a map inside ariga.io/atlas code (all permutations for maps of <=3 entries; identity, "
+                 "reverse and one rotation beyond) x write order of 4 directory files x 4 declaration orders of a 3-table change set with chain / cycle / "
+                 "diamond+self foreign keys, for the MySQL, PostgreSQL and SQLite planners, MemDir listing/checksum/sum file, DefaultFormatter, and the "
+                 "multi-schema rejection message",
+        "thorough": "same (the catalogue is the bound)",
+    },
+    assumptions=[
+        "map iteration orders are explored by the engine's choice points (structural enumeration, stated in DESIGN.md 2.6/2.7); time.Now is the zero time",
+        "each path computes the output once in insertion order and once in the chosen order and compares them",
+    ],
+    outside="HCL marshalling (MarshalHCL), cross-process runs, goroutine interleavings / the race detector (the engine is single-threaded), "
+            "pointer-address dependent behaviour, maps with more than 3 entries beyond three orders",
+    claim="For every explored map-iteration order the planners' statements (and reverse statements), directory listings, sum files and formatted files "
+          "are byte-identical; permuting the declaration order of the change set yields the same multiset of statements and flags.",
+    note="Schedule enumeration on the real SSA; no concurrency. Trusted: engine's ordered-map model (Go's real order is unspecified; every order the "
+         "engine explores is a legal one).",
+)
+
 NOT_APPLICABLE = {
     "C01": "needs a real SQLite engine executing the planned SQL and pragma-based inspection; neither cgo code nor SQLite's DDL "
            "semantics can be encoded by an SSA-level symbolic executor, and a hand-written catalogue model would verify the model, not Atlas "
